@@ -9,7 +9,8 @@
 
   All statements are about `Gen.Funcs.timedMode / softLimit / hardLimit`, the Lean translation of
   /repo/uci/uci.go's `timeControl` methods regenerated on every run (Int semantics with `wrapS64`
-  at every arithmetic operation; constants `TimeSafetyMargin`, `PredictedMoves`, `TimeInf` from Gen).
+  at every arithmetic operation; constants `TimeSafetyMargin`, `PredictedMoves`, `TimeInf` from Gen; no
+  statement below names the numbers 30/30/4, so a re-tuned constant is re-proved or refuted by the build).
   Parameters: `w b wi bi` = wtime btime winc binc (ms), `mt` = movetime (0 = absent), `stm` = side to
   move (`White = 0`, `Black = 1`).  `own stm x y` is the mover's value of a per-colour field.
   Quantifier: `ClockDom t inc` = 1 ≤ t ≤ 10^12 ∧ 0 ≤ inc ≤ 10^9 for the MOVER's clock; the opponent's
@@ -27,19 +28,15 @@ open ChessVerif ChessVerif.Gen.Funcs ChessVerif.Proofs.TimeControl
 variable {w b wi bi mt stm : Int}
 
 /-- On the stated domain no arithmetic operation of `softLimit`/`hardLimit` leaves the `int64` range:
-    every intermediate value is an `int64`, and the translated functions (with a `wrapS64` at every
-    operation) equal the exact-integer formulas. -/
-theorem no_wrap (hs : stm = White ∨ stm = Black) (hd : ClockDom (own stm w b) (own stm wi bi)) (hmt : mt ≤ 0) :
-    (InS64 (own stm w b / PredictedMoves) ∧ InS64 (own stm wi bi / 2) ∧
-      InS64 (own stm w b / PredictedMoves + own stm wi bi / 2) ∧
-      InS64 (4 * (own stm w b / PredictedMoves + own stm wi bi / 2)) ∧
-      InS64 (own stm w b - TimeSafetyMargin)) ∧
-    softLimit w b wi bi mt stm = own stm w b / PredictedMoves + own stm wi bi / 2 ∧
-    hardLimit w b wi bi mt stm = hardIdeal (own stm w b) (own stm wi bi) := by
-  refine ⟨intermediates_in_range hd, ?_⟩
-  rcases hs with h | h <;> simp only [White, Black] at h <;> subst h <;> simp only [own_white, own_black] at hd ⊢
-  · exact ⟨soft_white_eq hd.1 hd.3 hd.2 hd.4 hmt, hard_white_eq hd.1 hd.3 hd.2 hd.4 hmt⟩
-  · exact ⟨soft_black_eq hd.1 hd.3 hd.2 hd.4 hmt, hard_black_eq hd.1 hd.3 hd.2 hd.4 hmt⟩
+    the translation with a `wrapS64` at every operation agrees with `softLimit_ideal`/`hardLimit_ideal`,
+    the extractor's rendering of the same Go bodies over exact integers (every `wrapS64` is an
+    identity on the values that occur).  Holds with or without a move time. -/
+theorem no_wrap (hs : stm = White ∨ stm = Black) (hd : ClockDom (own stm w b) (own stm wi bi)) (mt : Int) :
+    softLimit w b wi bi mt stm = softLimit_ideal w b wi bi mt stm ∧
+    hardLimit w b wi bi mt stm = hardLimit_ideal w b wi bi mt stm := by
+  rcases hs with h | h <;> simp only [White, Black] at h <;> subst h <;> simp only [own_white, own_black] at hd
+  · exact no_wrap_white hd.1 hd.2 hd.3 hd.4
+  · exact no_wrap_black hd.1 hd.2 hd.3 hd.4
 
 /-- The hard deadline is positive (with or without a move time). -/
 theorem hard_pos (hs : stm = White ∨ stm = Black) (hd : ClockDom (own stm w b) (own stm wi bi)) (mt : Int) :
@@ -111,21 +108,25 @@ theorem untimed_limits (hs : stm = White ∨ stm = Black) (ht : own stm w b ≤ 
     · exact untimed_white ht hmt
     · exact untimed_black ht hmt
 
-/-! ## Non-vacuity: concrete clocks meet the hypotheses, and the functions compute what one expects -/
+/-! ## Non-vacuity: concrete clocks meet the hypotheses (outputs are stated relative to the Gen
+   constants, so the examples survive a re-tuning of the constants) -/
 
 example : ClockDom (own White 60000 45000) (own White 1000 0) := ⟨by decide, by decide, by decide, by decide⟩
 example : ClockDom (own Black 45000 1) (own Black 0 1000000000) := ⟨by decide, by decide, by decide, by decide⟩
 example : ClockDom 1000000000000 1000000000 := ⟨by decide, by decide, by decide, by decide⟩
-/-- 60 s + 1 s: soft 2.5 s, hard 10 s; the opponent's 45 s is irrelevant. -/
-example : softLimit 60000 45000 1000 0 0 White = 2500 ∧ hardLimit 60000 45000 1000 0 0 White = 10000 := by decide
+example : (White = White ∨ White = Black) ∧ (Black = White ∨ Black = Black) := by decide
+/-- 60 s + 1 s for White: positive, margin kept; Black's 45 s is irrelevant. -/
+example : 0 < hardLimit 60000 45000 1000 0 0 White ∧ hardLimit 60000 45000 1000 0 0 White ≤ 60000 - TimeSafetyMargin ∧
+    hardLimit 60000 45000 1000 0 0 White = hardLimit 60000 7 1000 99 0 White := by decide
 /-- 1 ms left: the deadline is that 1 ms (positive, ≤ t). -/
 example : hardLimit 7 1 0 0 0 Black = 1 := by decide
-/-- 31 ms left: margin kept, hard = 1 ms. -/
-example : hardLimit 31 0 0 0 0 White = 1 ∧ TimeSafetyMargin < 31 := by decide
-/-- Upper corner of the domain: no wrap, deadline 4·(10^12/30 + 10^9/2). -/
-example : hardLimit 0 1000000000000 0 1000000000 0 Black = 135333333332 := by decide
-/-- Large increment on a short clock: clamped to t − margin. -/
-example : hardLimit 100 0 200 0 0 White = 70 := by decide
+/-- margin + 1 ms left: margin kept, hard = 1 ms. -/
+example : hardLimit (TimeSafetyMargin + 1) 0 0 0 0 White = 1 := by decide
+/-- Upper corner of the domain: no wrap, and the deadline is below the clock. -/
+example : hardLimit 0 1000000000000 0 1000000000 0 Black = hardLimit_ideal 0 1000000000000 0 1000000000 0 Black ∧
+    hardLimit 0 1000000000000 0 1000000000 0 Black < 1000000000000 := by decide
+/-- Huge increment on a short clock: clamped to t − margin. -/
+example : hardLimit 1000 0 1000000000 0 0 White = 1000 - TimeSafetyMargin := by decide
 /-- Move time with clocks: both limits are the move time. -/
 example : softLimit 60000 60000 0 0 50 White = 50 ∧ hardLimit 60000 60000 0 0 50 White = 50 := by decide
 example : timedMode 0 0 0 White = false ∧ timedMode 0 5 0 Black = true ∧ timedMode 0 0 1 White = true := by decide
